@@ -214,7 +214,7 @@ fn user_mapping(u: &Value, report: &Value) -> MappingEntry {
         mapping: MappingInfo {
             start_address: start,
             size,
-            system_mapping_info: SystemMappingInfo { start_address: start, end_address: start + size },
+            system_mapping_info: SystemMappingInfo { start_address: start, end_address: start.wrapping_add(size) },
             offset: u["offset"].as_u64().unwrap_or(0) as usize,
             permissions: crate::synth::perms(u["perms"].as_str().unwrap_or("r-xp")),
             name: u["name"].as_str().map(|s| s.into()),
@@ -268,7 +268,11 @@ pub fn configure_writer(w: &mut MinidumpWriter, opts: &Value, report: &Value) ->
         info["direct_auxv"] = json!({"phnum": d.program_header_count, "phdr": d.program_header_address, "gate": d.linux_gate_address, "entry": d.entry_address});
         w.set_direct_auxv_dump_info(d);
     }
-    w.stop_timeout(Duration::from_millis(opts.get("stop_timeout_ms").and_then(|v| v.as_u64()).unwrap_or(5000)));
+    if opts.get("stop_timeout_max").and_then(|v| v.as_bool()).unwrap_or(false) {
+        w.stop_timeout(Duration::MAX);
+    } else {
+        w.stop_timeout(Duration::from_millis(opts.get("stop_timeout_ms").and_then(|v| v.as_u64()).unwrap_or(5000)));
+    }
     info
 }
 
